@@ -54,6 +54,11 @@ const (
 	DevNoOK      = "no-ok"        // write memory without [OK]
 	DevAuthz     = "authz-failed" // ASA / IOS: AAA refuses the command: "Command authorization failed."
 	DevSaveAbort = "save-aborted" // IOS: "%Aborting Save. Compress the config.[OK]" - nothing was saved
+	// IOS: NVRAM was written by another software version: the device asks
+	// "Overwrite the previous NVRAM configuration?[confirm]"; after the
+	// confirmation it saves (nvram-confirm) or aborts the save (nvram-confirm-aborted)
+	DevNvramQ      = "nvram-confirm"
+	DevNvramQAbort = "nvram-confirm-aborted"
 	DevExit1     = "exit1"        // Linux: silent non-zero exit status
 	DevBanner    = "banner"       // IOS reload banner (see BannerSpec)
 	DevWarnErr   = "warn+error"   // ASA: the benign warning this command class can produce, followed by the error text
@@ -624,12 +629,18 @@ func (s *SSH) iosLine(l, class, dev string) {
 		s.ReloadArmed++
 		s.emit("\r\n" + s.prompt())
 		return
-	case "nvram":
-		s.rec(l, ClSave, dev, dev == "")
+	case "nvram", "nvram-abort":
+		abort := s.pendingConfirm == "nvram-abort"
 		s.pendingConfirm = ""
+		if abort {
+			s.rec(l, ClSave, DevNvramQAbort, false)
+			s.emit("\r\nBuilding configuration...\r\n%Aborting Save. Compress the config.[OK]\r\n" + s.prompt())
+			return
+		}
+		s.rec(l, ClSave, dev, dev == "")
 		s.Saved++
 		s.modified = false
-		s.emit("\r\nBuilding configuration...\r\n[OK]\r\n" + s.prompt())
+		s.emit("\r\nBuilding configuration...\r\nCompressed configuration from 10194 bytes to 5372 bytes[OK]\r\n" + s.prompt())
 		return
 	}
 	switch {
@@ -695,6 +706,11 @@ func (s *SSH) iosLine(l, class, dev string) {
 		case DevSaveAbort:
 			s.rec(l, class, dev, false)
 			s.iosAnswer(l, "Building configuration...\n%Aborting Save. Compress the config.[OK]")
+		case DevNvramQ, DevNvramQAbort:
+			// the question is a legal answer; what follows the confirmation decides
+			s.rec(l, class, dev, true)
+			s.pendingConfirm = map[string]string{DevNvramQ: "nvram", DevNvramQAbort: "nvram-abort"}[dev]
+			s.emit(l + "\r\nWarning: Attempting to overwrite an NVRAM configuration previously written\r\nby a different version of the system image.\r\nOverwrite the previous NVRAM configuration?[confirm]")
 		default:
 			s.rec(l, class, dev, true)
 			s.Saved++
